@@ -220,10 +220,11 @@ class Attribute(_BaseAttribute):
                 # provided number of element do not match elemsize
                 raise Attribute.InvalidSizeError(n,self.elemsize)
         
-            datatype = type(data[0])
-            data_attr_type = Attribute.Type(datatype)  
-            if not self._can_be_casted(data_attr_type, self.type):
-                raise Attribute.TypeNotMatchingError(data, datatype, self.type)
+            for x in data: # every component should be castable, not only the first one
+                datatype = type(x)
+                data_attr_type = Attribute.Type(datatype)
+                if not self._can_be_casted(data_attr_type, self.type):
+                    raise Attribute.TypeNotMatchingError(data, datatype, self.type)
             self._data[key] = Vec(data)
         
         else:
@@ -303,10 +304,11 @@ class ArrayAttribute(_BaseAttribute):
                 # provided number of element do not match elemsize
                 raise Attribute.InvalidSizeError(n,self.elemsize)
         
-            datatype = type(data[0])
-            data_attr_type = Attribute.Type(datatype)  
-            if not self._can_be_casted(data_attr_type, self.type):
-                raise Attribute.TypeNotMatchingError(data, datatype, self.type)
+            for x in data: # every component should be castable, not only the first one
+                datatype = type(x)
+                data_attr_type = Attribute.Type(datatype)
+                if not self._can_be_casted(data_attr_type, self.type):
+                    raise Attribute.TypeNotMatchingError(data, datatype, self.type)
             self._data[key] = Vec(data)
         
         else:
